@@ -55,6 +55,8 @@ type obs4 struct {
 }
 
 func runApply4(doc, patch []byte, neg bool, limit int64, indent string) obs4 {
+	pending("apply4", kv{"flags", b2s(neg) + "001"}, kv{"limit", fmt.Sprint(limit)}, kv{"indent", hx([]byte(indent))},
+		kv{"patch", hx(patch)}, kv{"doc", hx(doc)}, kv{"status", "crash"})
 	var ob obs4
 	jsonpatch.SupportNegativeIndices = neg
 	jsonpatch.AccumulatedCopySizeLimit = limit
@@ -467,6 +469,8 @@ func main() {
 		os.Exit(2)
 	}
 	out = bufio.NewWriterSize(f, 1<<20)
+	pendingPath = *outPath + ".pending"
+	defer os.Remove(pendingPath)
 	defer func() { out.Flush(); f.Close() }()
 	switch *stream {
 	case "apply4-c18":
